@@ -258,6 +258,12 @@ V['context.mark_one#unwind'] = {
                        ensures='final(self)@.unwinding ==> mark_one_unwind_rel(old(self)@, S { unwinding: false, ..final(self)@ })'),
 }
 
+# unwind variant of sweep_one: the destructor of a weakly marked value panics (C04 "never a second time", C05 "is_dropped reports exactly
+# whether the destructor has run", C11): the state is the one of a normal step with the work counters of the step not yet advanced
+V['context.sweep_one#unwind'] = {
+    'drop_weak': dict(serves=['C04', 'C05', 'C11'], requires=['sweep_one_pre(old(self)@)', '!old(self)@.unwinding'],
+                      ensures='final(self)@.unwinding ==> sweep_one_unwind_rel(old(self)@, S { unwinding: false, ..final(self)@ })'),
+}
 
 # =====================================================================================================================
 # Layer L rows: which properties each lemma serves (module default, per-lemma override)
@@ -278,6 +284,7 @@ L_SERVES = {
     'bcast_x': ['C02', 'C07'],
     'witness': [],
     'lem_pace': ['C09'],
+    'lem_dtor': ['C04', 'C05', 'C11'],
     'bcast_p': ['C09'],
 }
 L_SERVES_FN = {
@@ -466,6 +473,7 @@ _k('K.path.oncelock_set', 'k_path_oncelock_set', ['C01', 'C06'], 'Gc<OnceLock<T>
 _k('K.path.oncelock_get_or_init', 'k_path_oncelock_get_or_init', ['C01', 'C06'], 'Gc<OnceLock<T>>::get_or_init')
 _k('K.path.non_tracing_parent', 'k_path_barrier_on_non_tracing_parent', ['C06', 'C10'], 'write barrier on a marked object whose type needs no tracing: no panic, no underflow, no counter moves (F1)')
 _k('K.path.root_mutation', 'k_path_root_mutation', ['C01', 'C06', 'C08', 'C11'], 'Arena::mutate_root / map_root / try_map_root flag the root for re-tracing while marking, and the flag is already set when the callback starts (so a callback that panics after storing a pointer leaves the root flagged)')
+_k('K.api.failed_constructors', 'k_api_failed_constructors_release_everything', ['C11', 'C04'], 'a failed Arena::try_new / try_map_root (any collector phase) hands the error back and destructs every value allocated so far exactly once; blocks released (Kani checks the deallocations)')
 _k('K.path.mutation_barriers', 'k_path_mutation_barriers', ['C06', 'C10'], 'the four public Mutation barriers with each optional argument Some/None (typed wrappers)')
 _k('K.path.mutation_barriers_arena', 'k_path_mutation_backward_barriers', ['C06', 'C20'], 'the same through a real Arena with a second arena present', tier='thorough')
 # ---- Arena API (C08)
@@ -480,6 +488,7 @@ for _n, _t in (('u8', 'u8'), ('u16', 'u16'), ('u64', 'u64'), ('u128', 'u128 (ali
 _k('K.layout.slice_kernel', 'k_layout_slice_kernel', ['C17', 'C04'], 'SliceWithHeader::layout for EVERY length (0 included) x 6 (header, element) pairs incl. zero-sized and over-aligned: aligned for header and elements, room for both; thin <-> fat reconstructs the length')
 for _n in ('u16_u32', 'unit_u128', 'u8_a32', 'a32_u8'):
     _k('K.layout.inst.slice_' + _n, 'k_layout_inst_slice_' + _n, ['C17', 'C04', 'C18'], 'header+slice allocation with SYMBOLIC length: element / header pointers aligned, abandoning the builder releases the identical layout')
+_k('K.conv.ptr_eq_metadata', 'k_conv_ptr_eq_ignores_metadata', ['C19'], 'Gc::ptr_eq is identity of the allocation: two Gc<dyn Trait> with the same address and different vtable pointers are ptr_eq; different objects are not')
 _k('K.conv.identity_sized', 'k_conv_identity_sized', ['C19', 'C04'], 'erase, erase_kind, downgrade->upgrade, as_ptr/from_ptr, unsize! to dyn, cast: same address, same header/vtable, original value; destructed exactly once as the original type')
 _k('K.conv.thin_fat_slice', 'k_conv_thin_fat_slice', ['C17', 'C19'], 'GcSlice as_thin / as_fat / from_ptr_with_kind on real allocations: address kept, length reconstructed', complete='bounded: slice length <= 3')
 _k('K.conv.thin_fat_str', 'k_conv_thin_fat_str', ['C17', 'C19'], 'GcStr thin <-> fat', complete='bounded: "" and "abc"', tier='thorough')
@@ -522,6 +531,7 @@ PROP_ASSUMES['C14'].insert(0, 'A-rcptr')
 _k('K.weak.api', 'k_weak_api', ['C05', 'C07', 'C19'], 'GcWeak::upgrade / is_dropped / is_dead / resurrect and Gc::is_dead map exactly to the Context functions: results per (phase, colour, live), frame, revived object Gray and queued')
 _k('K.collect.btreeset_binaryheap', 'k_collect_btreeset_binaryheap', ['C16'], 'BTreeSet and BinaryHeap elements (an Ord element type that holds a pointer)', complete='bounded: <= 2 elements')
 _k('K.collect.btreemap_keys', 'k_collect_btreemap_keys', ['C16'], 'BTreeMap: key AND value reported', complete='bounded: 1 entry')
+_k('K.collect.reflock_borrowed', 'k_collect_reflock_mutably_borrowed', ['C16', 'C06', 'C01'], 'tracing a RefLock whose contents are mutably borrowed (leaked RefMut) never returns normally without having reported the pointer it holds (should_panic row)')
 _k('K.collect.std_hashmap', 'k_collect_std_hashmap', ['C16'], 'std::collections::HashMap (the impl is generic over the hasher: trivial hasher instead of SipHash): key AND value, strong and weak; NEEDS_TRACE', complete='bounded: 1 entry', tier='thorough')
 _k('K.collect.std_hashset', 'k_collect_std_hashset', ['C16'], 'std::collections::HashSet elements (trivial hasher); NEEDS_TRACE', complete='bounded: 1 entry', tier='thorough')
 _k('K.collect.indexmap', 'k_collect_indexmap', ['C16'], 'indexmap::IndexMap: key, then value, strong and weak; NEEDS_TRACE', complete='bounded: 1 entry', features='indexmap', tier='thorough')
